@@ -130,10 +130,18 @@ def factories(ctx: Ctx):
         body = SUMMARIZER.summarize(m.node)
         for _g, leaf in strip_ifexp_paths(body):
             if isinstance(leaf, ast.Call) and u(leaf.func).endswith(".factory"):
-                tail = [u(a) for a in leaf.args[-3:]]
+                from .common import positional_args
+
+                target = ctx.repo.resolve_class(cm.module, u(leaf.func)[: -len(".factory")])
+                callee = ctx.repo.lookup(target, "factory") if target is not None else None
+                args = positional_args(ctx, leaf, callee) if callee is not None else (list(leaf.args) if not leaf.keywords else None)
+                n += 1
+                if args is None:
+                    ctx.undecided("slice-pass-through", f"{MCM}::CubeMeasures.{name}", u(leaf)[:120], "arguments bound to (..., cube, dimensions, slice_idx)")
+                    continue
+                tail = [u(a) for a in args[-3:]]
                 ok = tail == ["self._cube", "self._dimensions", "self._slice_idx"]
                 ctx.ob("slice-pass-through", f"{MCM}::CubeMeasures.{name}", tail, "[..., self._cube, self._dimensions, self._slice_idx]", ok)
-                n += 1
     ctx.count("CubeMeasures factory calls", n)
     ctx.require_min("CubeMeasures factory calls", 9)
 
